@@ -134,7 +134,55 @@ def normalise(tree):
                         del body[i]
                         continue
                     i += 1
+    _sink_attribute_copies(tree)
     return tree
+
+
+def _sink_attribute_copies(tree):
+    """Second canonical form: a local that only serves to build the object stored in an instance attribute
+    (`t = <expr>` in one or more branches, possibly `t.flags... = ...`, then `self.A = t`) is replaced by the
+    attribute itself, so that rules see `self.A = <expr>` in each branch.  (For the analysis the attribute is thereby
+    considered set slightly earlier, which only makes the rules see more.)"""
+    for fn in [n for n in ast.walk(tree) if isinstance(n, ast.FunctionDef)]:
+        a = fn.args
+        params = {x.arg for x in a.posonlyargs + a.args + a.kwonlyargs}
+        copies = []
+        for parent in ast.walk(fn):
+            for fld in ('body', 'orelse', 'finalbody'):
+                body = getattr(parent, fld, None)
+                if isinstance(body, list) and body and isinstance(body[0], ast.stmt):
+                    for st in body:
+                        if isinstance(st, ast.Assign) and len(st.targets) == 1 and isinstance(st.value, ast.Name) and \
+                                isinstance(st.targets[0], ast.Attribute) and isinstance(st.targets[0].value, ast.Name) and \
+                                st.targets[0].value.id == 'self' and st.value.id not in params:
+                            copies.append((body, st))
+        for body, st in copies:
+            t, attr = st.value.id, st.targets[0].attr
+            stores = [n for n in ast.walk(fn) if isinstance(n, ast.Name) and n.id == t and isinstance(n.ctx, ast.Store)]
+            defs = [n for n in ast.walk(fn) if isinstance(n, ast.Assign) and len(n.targets) == 1 and
+                    isinstance(n.targets[0], ast.Name) and n.targets[0].id == t]
+            if not defs or len(stores) != len(defs):
+                continue            # bound by a loop, with-target, tuple unpacking ...
+            if not all(isinstance(d.value, ast.Call) for d in defs):
+                continue            # only freshly constructed objects
+            others = [n for n in ast.walk(fn) if isinstance(n, ast.Assign) and n is not st and
+                      any(isinstance(x, ast.Attribute) and isinstance(x.value, ast.Name) and x.value.id == 'self' and x.attr == attr
+                          for x in n.targets) and not (isinstance(n.value, ast.Constant) and n.value.value is None)]
+            if others:
+                continue
+            if sum(1 for b, c in copies if c.value.id == t) != 1:
+                continue
+
+            class R(ast.NodeTransformer):
+                def visit_Name(self, n):
+                    if n.id == t:
+                        return ast.copy_location(ast.Attribute(value=ast.Name(id='self', ctx=ast.Load()), attr=attr, ctx=n.ctx), n)
+                    return n
+            body.remove(st)
+            if not body:
+                body.append(ast.copy_location(ast.Pass(), st))
+            R().visit(fn)
+            ast.fix_missing_locations(fn)
 
 
 class Func:
